@@ -306,7 +306,7 @@ class Prov:
             down = self._reach_cache[block]
             for r in rs:
                 if r is not None and r[0] in down and (r[0] != block or (r[1] != -1 and r[1] >= idx) or r[1] == -1):
-                    return E('local', fn.local_name(l) + '@in', ty=fn.local_ty(l))
+                    return E('local', fn.local_name(l) + '@in', ty=fn.local_ty(l), c={'l': l, 'loopvar': True})
         for r in rs:
             if r is None:
                 if 1 <= l <= fn.arg_count:
